@@ -200,9 +200,44 @@ def cache_state(obj):
     return 'complete' if obj._cache_complete else ('partial' if obj._cache else 'fresh')
 
 
+def build_nested(R, spec, rng):
+    """a cached set whose member rules are cached objects of their own, some of them partly listed before the set is first
+    asked; every cache lock is replaced by a guard (objects that share one lock keep sharing one guard), so that a lock
+    taken again by its owner - a call that could never return - is reported instead of hanging"""
+    from vf import locks
+    rs = R.rruleset(cache=True)
+    members = []
+    for kw in spec[1]:
+        members.append(R.rrule(cache=True, **kw))
+        rs.rrule(members[-1])
+    for d in spec[2]:
+        rs.rdate(d)
+    for kw in spec[3]:
+        members.append(R.rrule(cache=True, **kw))
+        rs.exrule(members[-1])
+    for d in spec[4]:
+        rs.exdate(d)
+    guards = {}
+    for o in [rs] + members:
+        lk = getattr(o, '_cache_lock', None)
+        if lk is not None:
+            o._cache_lock = guards.setdefault(id(lk), locks.GuardLock('_cache_lock'))
+    for m in members:
+        r = rng.random()
+        if r < .3:
+            next(iter(m), None)
+        elif r < .5:
+            list(itertools.islice(m, 12))
+        elif r < .6:
+            list(m)
+    return rs
+
+
 def prepare(R, spec, L, state, rng):
     if state.startswith('late-'):
         return build_late(R, spec, state == 'late-cached', rng)
+    if state == 'nested-cached':
+        return build_nested(R, spec, rng)
     if state == 'many-consumers':
         # several iterators opened before the cache is complete, another consumer completes it, then the early ones are
         # drained: every one of them must still finish (the cache lock is replaced by a guard that reports a re-acquisition
@@ -252,7 +287,7 @@ def one_query(ctx, spec, sj, L, obj, q, initial):
 def check_object(ctx, R, spec, sj, L, state, rng):
     qs = gen_queries(rng, L)
     try:
-        if state in ('uncached', 'complete', 'fresh-sequence', 'late-cached', 'late-uncached', 'many-consumers'):
+        if state in ('uncached', 'complete', 'fresh-sequence', 'late-cached', 'late-uncached', 'many-consumers', 'nested-cached'):
             # one object, all queries in random order: answers must not depend on which queries ran before
             obj = prepare(R, spec, L, 'fresh' if state == 'fresh-sequence' else state, rng)
             for q in qs:
@@ -363,6 +398,8 @@ def run(ctx):
             for state in ('late-cached', 'late-uncached'):
                 ctx.count('late_member_objects')
                 check_object(ctx, R, spec, sj, L, state, rng)
+            ctx.count('nested_cached_objects')
+            check_object(ctx, R, spec, sj, L, 'nested-cached', rng)
         if spec[0] == 'rule':
             try:
                 check_replace(ctx, R, spec[1], rng)
@@ -383,6 +420,8 @@ def floors(agg, tier):
     for s in ('uncached', 'fresh', 'partial', 'complete'):
         if c.get('state_' + s, 0) < need // 30:
             out.append('cache state %s observed at only %d calls' % (s, c.get('state_' + s, 0)))
+    if c.get('nested_cached_objects', 0) < 40:
+        out.append('only %d cached sets with cached members' % c.get('nested_cached_objects', 0))
     if c.get('objects_set', 0) < 50 or c.get('objects_rule', 0) < 100:
         out.append('too few objects: %r' % {k: v for k, v in c.items() if k.startswith('objects')})
     if len(agg['distinct']) < 300:
